@@ -25,6 +25,8 @@ Inductive mcase :=
 | CCommittee (spe tcs mcps active : N) (go : N)
 | CSlotSpan (mn mx slot span : N) (go : bool)
 | CSlotPrev (s : N) (go : N)
+| CSlotToEpoch (spe s : N) (go : N)
+| CMinMax (a b : N) (gomin gomax : N)
 | CMerkle (leaf : bytes) (branch : list bytes) (depth index : N) (root : bytes) (go : gores bool)
 | CSha (msg : bytes) (go : bytes).
 
@@ -42,6 +44,8 @@ Definition impl_ok (c : mcase) : bool :=
   | CCommittee a b c d go => committee_count a b c d =? go
   | CSlotSpan a b c d go => Bool.eqb (check_slot_span a b c d) go
   | CSlotPrev s go => slot_prev s =? go
+  | CSlotToEpoch spe s go => slot_to_epoch spe s =? go
+  | CMinMax a b gmin gmax => (N.min a b =? gmin) && (N.max a b =? gmax)
   | CMerkle leaf br d i root go => agree Bool.eqb (verify_merkle_branch sha256 sha_cat bytes_eqb leaf br d i root) go
   | CSha msg go => bytes_eqb (sha256 msg) go
   end.
@@ -63,6 +67,8 @@ Definition spec_ok (c : mcase) : bool :=
   | CCommittee a b c d go => if (a =? 0) || (b =? 0) || (c =? 0) then true else committee_count_spec a b c d =? go
   | CSlotSpan a b c d go => Bool.eqb (check_slot_span_spec a b c d) go
   | CSlotPrev s go => (if s =? 0 then 0 else s - 1) =? go
+  | CSlotToEpoch spe s go => if spe =? 0 then true else (go * spe <=? s) && (s <? (go + 1) * spe)
+  | CMinMax a b gmin gmax => (gmin <=? a) && (gmin <=? b) && ((gmin =? a) || (gmin =? b)) && (a <=? gmax) && (b <=? gmax) && ((gmax =? a) || (gmax =? b))
   | CMerkle leaf br d i root go =>
       if d <=? N.of_nat (length br)
       then match go with
